@@ -276,17 +276,33 @@ def run(ctx):
               expr="assign on the object itself", site="NodeDerefAssign.evaluate: writes the targeted object only")
 
     # ---------------------------------------------------------------- by reference
+    def stored_evaluated(m, meth):
+        """the value handed to environment.<meth>(self.identifier, v) is the object self.expression.evaluate(env)
+        produced: written inline, or held in a local that is assigned exactly once, from that call"""
+        e = m.params[1]
+        want = f"self.expression.evaluate({e})"
+        calls = [c for c in _calls(m.node, meth) if norm(c.func.value) == e and len(c.args) == 2
+                 and norm(c.args[0]) == "self.identifier"]
+        if not calls:
+            return False
+        for c in calls:
+            v = c.args[1]
+            if norm(v) == want:
+                continue
+            if isinstance(v, ast.Name):
+                defs = [a for a in ast.walk(m.node) if isinstance(a, (ast.Assign, ast.AugAssign, ast.For))
+                        and any(isinstance(x, ast.Name) and x.id == v.id and isinstance(x.ctx, ast.Store)
+                                for x in ast.walk(a.targets[0] if isinstance(a, ast.Assign) else a.target))]
+                if len(defs) == 1 and isinstance(defs[0], ast.Assign) and norm(defs[0].value) == want:
+                    continue
+            return False
+        return True
+
     ndf = model.method(P, "NodeDef", "evaluate")
-    t = norm(ndf.node)
-    ok = f"value = self.expression.evaluate({ndf.params[1]})" in t and f"{ndf.params[1]}.put(self.identifier, value)" in t
-    n_assign = sum(1 for n in ast.walk(ndf.node) if isinstance(n, ast.Assign) and norm(n.targets[0]) == "value")
-    ok = ok and n_assign == 1
-    ctx.check("C03.byref", ndf, None, ok, "def does not store the evaluated object itself", expr="def by reference",
-              site="NodeDef.evaluate: put(identifier, <evaluated value>)")
+    ctx.check("C03.byref", ndf, None, stored_evaluated(ndf, "put"), "def does not store the evaluated object itself",
+              expr="def by reference", site="NodeDef.evaluate: put(identifier, <evaluated value>)")
     na = model.method(P, "NodeAssign", "evaluate")
-    e = na.params[1]
-    ok = f"{e}.set(self.identifier, self.expression.evaluate({e}))" in norm(na.node)
-    ctx.check("C03.byref", na, None, ok, "assignment does not store the evaluated object itself",
+    ctx.check("C03.byref", na, None, stored_evaluated(na, "set"), "assignment does not store the evaluated object itself",
               expr="assign by reference", site="NodeAssign.evaluate: set(identifier, <evaluated value>)")
     ok = any(len(c.args) == 2 and norm(c.func.value) == frame
              and norm(c.args[1]) == f"{ex.params[1]}.get({norm(c.args[0])})" for c in _calls(ex.node, "put"))
